@@ -244,6 +244,27 @@ MASKS = {
 }
 
 
+# "alias:<mask>": the cells of <mask> are populated and the SECOND populated cell (row-major) holds the very same array object as the
+# FIRST one - a legal state: `v[2:4, 1] = v[1:3, 1]`, `v[0:2] = [a, a]` or the same array assigned to two cells store the given objects.
+def mask_fn(mask):
+    return MASKS[mask.split(":")[-1]]
+
+
+def alias_pair(mask, shape):
+    """(dst, src) cell indices of the aliased pair of an "alias:" mask, else None."""
+    if not mask.startswith("alias:"):
+        return None
+    pop = [k for k in cells_of(shape) if mask_fn(mask)(k)]
+    return (pop[1], pop[0]) if len(pop) >= 2 else None
+
+
+def put_cell(data, idx, x):
+    tgt = data
+    for i in idx[:-1]:
+        tgt = tgt[i]
+    tgt[idx[-1]] = x
+
+
 # element kinds of the cells: float64 (the only kind the test-suite uses), int64 (ids / timestamps: NOT exactly representable in
 # float64 above 2**53), complex128 (not representable in any float), float32 (representable, but a different dtype)
 CELL_DTYPES = ["float64", "int64", "complex128", "float32"]
@@ -263,7 +284,7 @@ def build_data(ctx, shape, nf, mask, tag="c", dtype=None):
 
     def rec(prefix, dims):
         if not dims:
-            if MASKS[mask](prefix):
+            if mask_fn(mask)(prefix):
                 leaf = cm.fresh_cell(ctx, f"{tag}_" + "_".join(map(str, prefix)), nf, dtype=dtype)
             else:
                 leaf = None
@@ -271,7 +292,12 @@ def build_data(ctx, shape, nf, mask, tag="c", dtype=None):
             return leaf
         return [rec(prefix + (i,), dims[1:]) for i in range(dims[0])]
 
-    return rec((), tuple(shape)), leaves
+    data = rec((), tuple(shape))
+    ap = alias_pair(mask, tuple(shape))
+    if ap:
+        leaves[ap[0]] = leaves[ap[1]]
+        put_cell(data, ap[0], leaves[ap[1]])
+    return data, leaves
 
 
 def mk_vec(ctx, shape, nf, mask="full", tag="v", metadata=None, dtype=None):
@@ -878,7 +904,7 @@ C_FROM_SHAPE = Contract(f"{VEC}:Vector.from_shape", setup=fs_setup, requires=fs_
 
 # ---- copy
 
-COPY_CASES = [(sh, m) for sh in [(1,), (3,), (2, 2), (2, 1, 2)] for m in ("full", "even", "unset")]
+COPY_CASES = [(sh, m) for sh in [(1,), (3,), (2, 2), (2, 1, 2)] for m in ("full", "even", "unset")] + [((2, 3), "full"), ((2, 2, 2), "odd"), ((3,), "alias:full"), ((2, 2), "alias:full")]
 
 
 def copy_setup(ctx):
@@ -896,13 +922,24 @@ def copy_ensures(s):
     same_cells = lc is not None and all((lc[k] is None) == (lo[k] is None) for k in lo)
     eq = AND(*[arrays_equal(lc[k], old.frozen[k]) for k in lo if lo[k] is not None and lc[k] is not None]) if same_cells else False
     pre = old.parts + definition_time_objects()
+    arrays = lambda parts: [p for p in parts if is_cell_array(p)]
+    keys = [k for k in (lo or {}) if lo[k] is not None]
+    own = mutable_parts(c)
+    # (whether an array the source stores in two cells is ONE array in the copy, too, is not fixed by the statement: lists / schema objects must be distinct)
+    own_distinct = distinct_objects([p for p in own if not is_cell_array(p)])
+    nd = len(f["_shape"])
     return inv(c, "Inv(copy)") + [
+        # stated for every number of fixed dimensions (the case tag carries the shape): identity of the objects, not equality
+        (f"sharing:no-cell-array-of-the-copy-is-(or-is-a-view-of)-an-array-object-reachable-from-the-source[{nd}-fixed-dims]",
+         lc is not None and disjoint(arrays(own), arrays(old.parts))),
+        (f"sharing:no-nested-list-of-the-copy-is-a-list-object-reachable-from-the-source[{nd}-fixed-dims]",
+         lc is not None and disjoint(sublists(g["_data"], nd), old.lists)),
         ("copy:same-shape", g["_shape"] == f["_shape"]),
         ("copy:same-field-names-and-units", AND(len(g["_fields"]) == len(f["_fields"]), len(g["_units"]) == len(f["_units"]),
                                                  *[str_eq(a, b) for a, b in zip(g["_fields"], f["_fields"])], *[str_eq(a, b) for a, b in zip(g["_units"], f["_units"])])),
         ("copy:same-cells-populated", same_cells),
         ("copy:cell-contents-equal", eq),
-        ("sharing:copy-shares-no-mutable-object-with-the-original-or-earlier-objects", disjoint(mutable_parts(c), pre) and distinct_objects(mutable_parts(c))),
+        ("sharing:copy-shares-no-mutable-object-with-the-original-or-earlier-objects", disjoint(own, pre) and own_distinct),
     ] + unchanged(o, old)
 
 
@@ -1153,6 +1190,8 @@ def gi_ensures(s):
             lists_new = sublists(g.get("_data"), len(new_shape)) + [x for x in (g.get("_fields"), g.get("_units"), g.get("_metadata")) if isinstance(x, (list, dict))]
             parts.append(("own-lists", disjoint(lists_new, [p for p in old.parts if isinstance(p, (list, dict))] + definition_time_objects())))
         out += conj("slicing:returns-a-new-Vector-(Inv,own-lists,same-schema)-holding-exactly-the-addressed-cells-in-place", parts)
+        out.append((f"sharing:no-nested-list-/-field-list-/-unit-list-/-metadata-of-the-result-is-an-object-reachable-from-the-source-(the-cells-are-the-source's-arrays)[{len(s.vshape)}-fixed-dims]",
+                    bool(ok) and dict(parts).get("own-lists") is True))
     out += unchanged(o, old) + conj("Inv-preserved", inv(o))
     return tagl(s.case, out)
 
@@ -1445,7 +1484,9 @@ def si_ensures(s):
         j = [decide(s.ctx, str_eq(nm, s.idx)) for nm in old.fields].index(True)
         offs, tot = offsets(populated_in_order(old.frozen, old.shape))
         vals = s.old_values
-        return tagl(s.case, column_update_post(s.self, old, j, lambda n, k, was, r: vals.fn(lift(offs[n]) + r)) + writeback_clauses(s.self, old, j, s.value))
+        pop = populated_in_order(old.frozen, old.shape)
+        return tagl(s.case, column_update_post(s.self, old, j, lambda n, k, was, r: vals.fn(lift(offs[n]) + r), given=values_agree_on_shared_cells(s, old, vals, pop, offs))
+                    + writeback_clauses(s.self, old, j, s.value))
     multi = si_multi(s)
     cells, per_axis = addressed(s.ctx, s.specs, s.objs, s.vshape, negatives_ok=not multi)
     if cells is None:
@@ -1557,7 +1598,15 @@ def af_ensures(s):
         ("cells:same-rows,-old-columns-kept,-new-columns-zero,-unset-stays-unset", cells_relation(o, old, rel)),
         ("frame:shape-name-metadata-unchanged", f["_shape"] == old.shape and f["_name"] == old.name and f["_metadata"] is old.metadata),
         ("frame:old-cell-arrays-not-written", all((v.writes if isinstance(v, SymArr) else 0) == old.writes[k2] for k2, v in old.leaves.items())),
+        fresh_cells_clause(o, old),
     ]
+
+
+def fresh_cells_clause(o, old):
+    """The widened / pruned cells are NEW arrays: no array object (or view of one) that was reachable from the vector before -
+    another vector holding the old cells (`w = v[0:2]`) is not affected through them."""
+    arrays = lambda parts: [p for p in parts if is_cell_array(p)]
+    return ("sharing:no-cell-array-of-the-vector-is-(or-is-a-view-of)-an-array-object-it-held-before", disjoint(arrays(mutable_parts(o)), arrays(old.parts)))
 
 
 def raise_unchanged(s, E):
@@ -1599,6 +1648,8 @@ def rf_ensures(s):
     ]
     if len(keep) == len(old.fields):
         out += conj("nothing-to-remove:vector-unchanged", same_schema(o, old) + data_untouched(o, old))
+    else:
+        out.append(fresh_cells_clause(o, old))
     return out
 
 
@@ -1608,7 +1659,8 @@ C_REMOVE_FIELDS = Contract(f"{VEC}:Vector.remove_fields", setup=rf_setup, requir
 # flatten / field views
 # ------------------------------------------------------------------------------------------------
 
-FLAT_VECS = [((1,), "full", 2), ((3,), "first", 2), ((2, 2), "first", 1), ((2, 1, 2), "first", 2), ((3,), "even", 2), ((3,), "unset", 1), ((2, 2), "odd", 2), ((2, 3), "full", 1), ((2, 1, 2), "even", 2), ((2, 2, 2), "odd", 1)]
+FLAT_VECS = [((1,), "full", 2), ((3,), "first", 2), ((2, 2), "first", 1), ((2, 1, 2), "first", 2), ((3,), "even", 2), ((3,), "unset", 1), ((2, 2), "odd", 2), ((2, 3), "full", 1), ((2, 1, 2), "even", 2), ((2, 2, 2), "odd", 1),
+             ((3,), "alias:full", 2), ((2, 2), "alias:full", 1)]  # one array object in two cells, a populated cell after the second occurrence
 
 
 def populated_in_order(leaves, shape):
@@ -1684,8 +1736,14 @@ def view_requires(s):
     fv = s.self
     v = fv.fields["vector"]
     j = fv.fields["field_index"]
-    return inv(v) + [("view-addresses-an-existing-column", isinstance(j, int) and 0 <= j < len(v.fields["_fields"])),
-                     ("cells-are-pairwise-distinct-array-objects", distinct_objects([x for x in (leaves_of(v) or {}).values() if x is not None]))]
+    # NO distinctness precondition: one array object may sit in several cells (`v[2:4, 1] = v[1:3, 1]` stores the given objects)
+    return inv(v) + [("view-addresses-an-existing-column", isinstance(j, int) and 0 <= j < len(v.fields["_fields"]))]
+
+
+def aliased_positions(leaves, shape):
+    """[(n, m)] n < m: the n-th and m-th populated cells (row-major) hold the SAME array object."""
+    pop = populated_in_order(leaves, shape)
+    return [(n, m) for n in range(len(pop)) for m in range(n + 1, len(pop)) if pop[n][1] is pop[m][1]]
 
 
 def fvflat_setup(ctx):
@@ -1754,9 +1812,11 @@ C_FV_ARRAY = InlinedAtCallSites(f"{VEC}:_FieldView.__array__", setup=fvarr_setup
 # ---- in-place column updates: set_flattened, _apply_op and the arithmetic operators
 
 
-def column_update_post(v, old, j, new_value):
+def column_update_post(v, old, j, new_value, given=True, unspecified=()):
     """Every populated cell is the SAME array object with the same shape; column j now holds new_value(cell k, row r);
-    every other column is unchanged; lists, unset cells and the schema are untouched."""
+    every other column is unchanged; lists, unset cells and the schema are untouched.
+    given: antecedent of the column clause (values that agree on positions holding one array); unspecified: populated positions
+    (ordinals) whose column j is left open (how often an update reaches an array stored twice is not fixed by the statement)."""
     lv = leaves_of(v)
     if lv is None:
         return [("column-update", False)]
@@ -1770,10 +1830,10 @@ def column_update_post(v, old, j, new_value):
             return [("column-update", False)]
         inr = AND(r >= 0, r < lift(was.shape[0]))
         cs_col.append(AND(B(S(now.shape[0]) == S(was.shape[0])), B(S(now.shape[1]) == S(was.shape[1])),
-                          forall([r], implies(inr, lift(now.fn(r, z3.IntVal(j))) == lift(new_value(n, k, was, r))))))
+                          z3.BoolVal(True) if n in unspecified else forall([r], implies(inr, lift(now.fn(r, z3.IntVal(j))) == lift(new_value(n, k, was, r))))))
         cs_rest.append(forall([r, c], implies(AND(inr, c >= 0, c < lift(was.shape[1]), c != j), lift(now.fn(r, c)) == lift(was.fn(r, c)))))
     return [("in-place:same-lists-and-same-cell-objects", same_objs),
-            ("column-holds-the-new-values", AND(*cs_col) if cs_col else z3.BoolVal(True)),
+            ("column-holds-the-new-values", (AND(*cs_col) if given is True else implies(B(given), AND(*cs_col))) if cs_col else z3.BoolVal(True)),
             ("other-columns-unchanged", AND(*cs_rest) if cs_rest else z3.BoolVal(True))] + conj("frame:schema-unchanged", same_schema(v, old))
 
 
@@ -1786,7 +1846,7 @@ def havoc_cells(ctx, v):
             a.writes += 1
 
 
-VIEW_VECS = [((1,), "full", 2), ((3,), "first", 2), ((2, 2), "odd", 2), ((2, 1, 2), "even", 2), ((2, 3), "full", 1)]
+VIEW_VECS = [((1,), "full", 2), ((3,), "first", 2), ((2, 2), "odd", 2), ((2, 1, 2), "even", 2), ((2, 3), "full", 1), ((3,), "alias:full", 2), ((2, 2), "alias:full", 2), ((2, 1, 2), "alias:full", 1)]
 SETFLAT_VALUES = ["vec1", "vec2"] + [f"view-self:{dt}" for dt in CELL_DTYPES] + ["view-other:int64", "view-other:float64"]
 
 
@@ -1806,6 +1866,18 @@ def sf_setup(ctx):
         values = Obj(FieldView, dict(vector=v, field_name=v.fields["_fields"][jj], field_index=jj))
         return NS(self=fv, values=values, case=case.replace(f",dtype={dt}", "") + f",values={vk}")
     fv, case = mk_view(ctx, "sf")
+    v0 = fv.fields["vector"]
+    if vk == "vec1" and aliased_positions(leaves_of(v0), v0.fields["_shape"]):
+        # one array in two cells: the values are ANY sequence that can be a flattened field of this vector, i.e. one that agrees
+        # on the positions holding the same array (built piecewise, the shared positions from one piece)
+        pieces = {}
+        for k, a in populated_in_order(leaves_of(v0), v0.fields["_shape"]):
+            if id(a) not in pieces:
+                pieces[id(a)] = ctx.fresh_arr("piece_" + "_".join(map(str, k)), (a.shape[0],), "real")
+        values = cm.concat_rows([pieces[id(a)] for _, a in populated_in_order(leaves_of(v0), v0.fields["_shape"])])
+        values.as_type = np.ndarray
+        values.alias_consistent = True
+        return NS(self=fv, values=values, case=case + f",values={vk}")
     n = ctx.fresh("values_len", "int")
     ctx.assume(n.t >= 0)
     if vk == "vec1":
@@ -1844,8 +1916,19 @@ def sf_ensures(s):
     pop = populated_in_order(old.frozen, old.shape)
     offs, tot = offsets(pop)
     vals = s.old_values
-    out = column_update_post(v, old, j, lambda n, k, was, r: vals.fn(lift(offs[n]) + r)) + [("returns-None", s.result is None)]
+    out = column_update_post(v, old, j, lambda n, k, was, r: vals.fn(lift(offs[n]) + r), given=values_agree_on_shared_cells(s, old, vals, pop, offs)) + [("returns-None", s.result is None)]
     return out + writeback_clauses(v, old, j, s.values)
+
+
+def values_agree_on_shared_cells(s, old, vals, pop, offs):
+    """True when no array is stored twice or the values are a flattened field of this very vector (they agree by construction);
+    otherwise the hypothesis `values[off(n) + r] == values[off(m) + r]` for positions n, m holding one array."""
+    pairs = aliased_positions(old.leaves, old.shape)
+    vs = getattr(s, "values", None) if hasattr(s, "values") else getattr(s, "value", None)
+    if not pairs or getattr(vs, "alias_consistent", False) or (is_view(vs) and vs.fields["vector"] is s.self.fields.get("vector", s.self)):
+        return True
+    r = I("r")
+    return AND(*[forall([r], implies(AND(r >= 0, r < lift(pop[n][1].shape[0])), lift(vals.fn(lift(offs[n]) + r)) == lift(vals.fn(lift(offs[m]) + r)))) for n, m in pairs])
 
 
 def writeback_clauses(v, old, j, values):
@@ -1912,7 +1995,11 @@ def ao_ensures(s):
         res = cache[k]
         return res.fn(r) if isinstance(res, SymArr) and res.ndim == 1 else (res.fn() if isinstance(res, SymArr) else res)
 
-    return column_update_post(v, old, j, new_value) + [("returns-None", s.result is None)]
+    return column_update_post(v, old, j, new_value, unspecified=shared_ordinals(old)) + [("returns-None", s.result is None)]
+
+
+def shared_ordinals(old):
+    return {x for pr in aliased_positions(old.leaves, old.shape) for x in pr}
 
 
 C_FV_APPLY = Contract(f"{VEC}:_FieldView._apply_op", setup=ao_setup, requires=view_requires, ensures=T(ao_ensures),
@@ -1920,7 +2007,7 @@ C_FV_APPLY = Contract(f"{VEC}:_FieldView._apply_op", setup=ao_setup, requires=vi
 
 ARITH = {"__iadd__": lambda x, y: x + y, "__isub__": lambda x, y: x - y, "__imul__": lambda x, y: x * y, "__itruediv__": lambda x, y: x / y,
          "__ifloordiv__": lambda x, y: x // y, "__imod__": lambda x, y: x % y, "__ipow__": lambda x, y: x ** y}
-ARITH_VECS = [((2,), "even", 2), ((2, 2), "full", 1), ((1, 2, 2), "odd", 2)]
+ARITH_VECS = [((2,), "even", 2), ((2, 2), "full", 1), ((1, 2, 2), "odd", 2), ((3,), "alias:full", 2)]
 
 
 def arith_contract(name):
@@ -1933,7 +2020,7 @@ def arith_contract(name):
     def ensures(s):
         v = s.self.fields["vector"]
         j = s.self.fields["field_index"]
-        return column_update_post(v, s.old, j, lambda n, k, was, r: f(S(was.fn(r, z3.IntVal(j))), s.other)) + [("returns-the-view-itself", s.result is s.self)]
+        return column_update_post(v, s.old, j, lambda n, k, was, r: f(S(was.fn(r, z3.IntVal(j))), s.other), unspecified=shared_ordinals(s.old)) + [("returns-the-view-itself", s.result is s.self)]
 
     return Contract(f"{VEC}:_FieldView.{name}", setup=setup, requires=view_requires, ensures=T(ensures), snapshot=lambda s: snap_vec(s.self.fields["vector"]))
 
@@ -2360,7 +2447,7 @@ def build_pair(shape, nf, mask, rows=None, names=None, dtype=None):
     ref = Ref(shape, names, units)
     n = -1
     for k in cells_of(shape):
-        if MASKS[mask](k):
+        if mask_fn(mask)(k):
             n += 1
             r = rows[n % len(rows)] if rows else ROWS_PATTERN[n % len(ROWS_PATTERN)]
             a = cell_array(k, r, nf, dtype=dtype)
@@ -2369,6 +2456,10 @@ def build_pair(shape, nf, mask, rows=None, names=None, dtype=None):
             for i in k[:-1]:
                 tgt = tgt[i]
             tgt[k[-1]] = a
+    ap = alias_pair(mask, shape)
+    if ap:
+        ref.cells[ap[0]] = ref.cells[ap[1]]
+        put_cell(v._data, ap[0], cell_at(v._data, ap[1]))
     return v, ref
 
 
@@ -2699,6 +2790,16 @@ def rt_fields(inp):
         total = ref.flatten().shape[0]
         n = total if inp.get("values_len") is None else int(inp["values_len"])
         vals = np.arange(n, dtype=float) * 1.5 - 2
+        ap = alias_pair(mask, shape)
+        if ap and n == total:
+            # one array in two cells: values that can be a flattened field agree on the two positions
+            pos, offs_ = 0, {}
+            for k in cells_of(shape):
+                if ref.cells[k] is not None:
+                    offs_[k] = pos
+                    pos += ref.cells[k].shape[0]
+            nr = ref.cells[ap[0]].shape[0]
+            vals[offs_[ap[0]]:offs_[ap[0]] + nr] = vals[offs_[ap[1]]:offs_[ap[1]] + nr]
         if inp.get("values") == "vec2":
             vals = vals.reshape(n, 1)
         both(lambda: v[name].set_flattened(vals), lambda: ref.set_flattened(name, vals.copy()))
@@ -2735,6 +2836,13 @@ def rt_fields(inp):
             both(lambda: v[name]._apply_op(f), lambda: ref.apply(name, f))
         else:
             both(lambda: getattr(v[name], op)(other), lambda: ref.apply(name, f))
+        ap = alias_pair(mask, shape)
+        if ap:
+            # how often an update reaches an array stored twice is not fixed by the statement: column `col` of that array is left open
+            for k in ap:
+                a = cell_at(v._data, k)
+                if isinstance(a, np.ndarray) and a.shape == ref.cells[k].shape:
+                    ref.cells[k][:, col] = a[:, col]
     else:
         raise ValueError(op)
     d = state_diff(v, ref)
@@ -2918,7 +3026,7 @@ def _vec_conc(pick, vecs, op, extra=None):
     def build(ev, k, *rest):
         shape, mask, nf = vecs[k]
         n_cells = len(cells_of(shape))
-        names = ["vc_" + "_".join(map(str, c)) + "_rows" for c in cells_of(shape) if MASKS[mask](c)]
+        names = ["vc_" + "_".join(map(str, c)) + "_rows" for c in cells_of(shape) if mask_fn(mask)(c)]
         rows = [ev(nm, 1) for nm in names] or None
         d = dict(op=op, shape=list(shape), mask=mask, nf=nf, rows=[min(int(r), 6) for r in rows] if rows else None)
         if extra:
@@ -3315,7 +3423,8 @@ LEMMAS = [Lemma("flatten-set_flattened-roundtrip", lemma_roundtrip, uses=["_Fiel
 TRUSTED = [
     "pyvc engine (AST interpreter incl. python list / tuple / dict semantics executed natively, z3, cvc5)",
     "pyvc/lib/c11_models.py: numpy zeros / empty / hstack / vstack / concatenate, basic slicing = view, advanced indexing = copy, in-place column store a[:, j] = v "
-    "(right-hand side read first, broadcasting only of scalars / length-1), copy.deepcopy, len(set(.)), list.index",
+    "(right-hand side read first, broadcasting only of scalars / length-1), copy.deepcopy (all reachable mutable objects rebuilt, sharing structure kept by the memo), "
+    "copy.copy (new outer list / dict holding the SAME element objects; ndarray: new array), id(x) (interpreter-level object identity), len(set(.)), list.index",
     "python object identity inside the interpreter = allocation identity of the real program (lists / dicts are real python objects; default-argument objects are "
     "the real function's __defaults__, allocated once at import)",
     "meta-argument of lemma independent-vectors-share-nothing: an object allocated during a call did not exist before the call started",
@@ -3328,8 +3437,10 @@ ASSUMPTIONS = [
     "the recursive helpers nested in methods (expand_array, prune_array, collect, collect_arrays, fill, apply, _flatten_cells) are interpreted by exact unrolling on the enumerated "
     "shapes, not by an inductive contract (nested functions are not addressable as contract targets); only nested_list is verified through its own recursive contract",
     "which cells are unset is enumerated by patterns (all, none, checkerboard, inverse checkerboard), not symbolic",
-    "in-place column updates (set_flattened, field arithmetic) are specified under the precondition that the populated cells are pairwise distinct array objects; "
-    "slice assignment from a list / Vector stores the given array objects without copying, so it can create aliased cells (see report: not demanded by the statement)",
+    "one array object stored in two cells (legal: `v[2:4, 1] = v[1:3, 1]` stores the given objects) is part of the pre-state family of the field-view contracts (flatten, "
+    "__array__, set_flattened, _apply_op, the arithmetic operators) and of copy: flatten is the concatenation over cell POSITIONS; set_flattened puts each position's slice "
+    "of the values into that position for every value sequence that agrees on the positions holding one array (every flattened field does), and writing a field back restores "
+    "the data exactly; how often a field-arithmetic update reaches an array stored twice is left open (column of that array unspecified, everything else specified)",
     "from_data / data setter keep the caller's arrays (no copy) - stated in the contracts, not a violation of the statement as written",
     "property setters (fields, units, shape, name, data) are not among the operations listed in the statement; units/data setters are under contract, the fields/shape setters are only "
     "used through __init__ (assigning fewer field names than columns through `v.fields = ...` is not rejected by the code)",
@@ -3337,3 +3448,11 @@ ASSUMPTIONS = [
 ]
 EXPLANATION = ("VCs generated from the real source of Vector / _FieldView / nested_list / the vector validators by symbolic interpretation: real nested python lists with "
                "abstract cell arrays (symbolic rows / contents / names), discharged by z3; allocation identity for the sharing clauses; property lemmas from the contracts")
+
+# debugging aid (never set by ./check or the tools): restrict a run to the contracts whose function name contains one of the given substrings
+import os as _os
+
+if _os.environ.get("C11_ONLY"):
+    _pats = _os.environ["C11_ONLY"].split(",")
+    CONTRACTS = [c for c in CONTRACTS if any(p in c.func for p in _pats)]
+    BOUNDED, LEMMAS = [], []
